@@ -33,7 +33,15 @@ pub fn load_event(grid: &Grid) -> J {
     json!({"op":"defs.load","rows":rows})
 }
 
+/// a panic inside a namespace query is an answer like any other: logged, judged by Trace_Defs
 pub fn query_event(ns: &'static Namespace<'static>, sym: &str, all: &[String]) -> J {
+    match crate::util::guarded(|| query_event_inner(ns, sym, all)) {
+        Ok(j) => j,
+        Err(p) => json!({"op":"defs.panic","what":"query","sym":cps(sym),"msg":cps(&crate::util::short(&p))}),
+    }
+}
+
+fn query_event_inner(ns: &'static Namespace<'static>, sym: &str, all: &[String]) -> J {
     let s = Symbol::from(sym);
     let fits: Vec<J> = all.iter().filter(|b| ns.has_name(b) && ns.fits(&s, &Symbol::from(b.as_str()))).map(|b| cps(b)).collect();
     let fits_undefined: Vec<J> = all.iter().filter(|b| !ns.has_name(b) && ns.fits(&s, &Symbol::from(b.as_str()))).map(|b| cps(b)).collect();
@@ -45,6 +53,13 @@ pub fn query_event(ns: &'static Namespace<'static>, sym: &str, all: &[String]) -
 }
 
 pub fn reflect_event(ns: &'static Namespace<'static>, rec: &Dict, asked: &[String]) -> J {
+    match crate::util::guarded(|| reflect_event_inner(ns, rec, asked)) {
+        Ok(j) => j,
+        Err(p) => json!({"op":"defs.panic","what":"reflect","sym":tags(rec),"msg":cps(&crate::util::short(&p))}),
+    }
+}
+
+fn reflect_event_inner(ns: &'static Namespace<'static>, rec: &Dict, asked: &[String]) -> J {
     let refl = ns.reflect(rec);
     let fits: Vec<J> = asked.iter().filter(|b| refl.fits(&Symbol::from(b.as_str()))).map(|b| cps(b)).collect();
     let isa: Vec<J> = asked
